@@ -290,6 +290,29 @@ def gen_simple_case(rng, tier):
         return gen_ufunc_case(rng, gs, spec, tier)
     inp, posof = gen_input(rng, gs, op_axes, need_all_axes=opname in ("integrate", "average") and rng.random() < 0.5)
     spec["input"] = inp
+    if opname in STENCIL_OPS and rng.random() < 0.1:
+        # Grid.interp_like: the target positions come from a second array
+        like_dims, like_to = [], {}
+        for a in gs["axes"]:
+            if a not in posof:
+                continue
+            if a in op_axes:
+                like_to[a] = rng.choice(valid_to(gs["axes"][a], posof[a]))
+                like_dims.append(gs["axes"][a]["pos"][like_to[a]])
+            elif rng.random() < 0.7:
+                like_dims.append(gs["axes"][a]["pos"][posof[a]])
+        for d in gs.get("extra") or {}:
+            if d != "b" and rng.random() < 0.5:
+                like_dims.append(d)
+        rng.shuffle(like_dims)
+        kw = {k: v for k, v in call_kwargs(rng, gs, op_axes).items() if k in ("boundary", "fill_value")}
+        spec["input2"] = {"dims": like_dims, "data": {"gen": "arange"}, "name": "like", "attrs": {}}
+        spec["op"] = {"name": "interp_like", "axis": [a for a in gs["axes"] if a in like_to], "like_to": like_to, "kw": kw}
+        sizes = worlds.dim_sizes(gs)
+        spec["chunks"] = gen_chunks(rng, inp["dims"], sizes)
+        spec["chunks2"] = gen_chunks(rng, like_dims, sizes) if rng.random() < 0.7 else {}
+        spec["lazy_ds"] = None
+        return spec
     if opname in ("integrate", "average"):
         op = {"name": opname, "axis": op_axes if rng.random() < 0.8 else op_axes[0], "kw": {}}
         if opname == "integrate" and rng.random() < 0.3:
@@ -708,6 +731,8 @@ def call_op(grid, op, da, da2=None, vector=None, eager=False):
                 vec = {vector["other_axis"]: da2, vector["axis"]: da}
             return getattr(grid, name)(vec, **kw)
         return getattr(grid, name)({vector["axis"]: da}, op["axis"], other_component={vector["other_axis"]: da2}, **kw)
+    if name == "interp_like":
+        return grid.interp_like(da, da2, **kw)
     return getattr(grid, name)(da, op["axis"], **kw)
 
 
@@ -896,6 +921,8 @@ def exempt_condition(spec):
         return False
     axes = [axes] if isinstance(axes, str) else list(axes)
     to = op.get("kw", {}).get("to")
+    if op["name"] == "interp_like":
+        to = op["like_to"]
     for a in axes:
         if a not in gs["axes"]:
             continue
@@ -1406,7 +1433,7 @@ RULE = (
     "axis swaps and reversals, 40% written sparsely), integer-valued float64/float32 data (optionally with NaNs, "
     "optionally carrying a scalar and a non-index coordinate the grid dataset does not know) in a random dimension "
     "order, an operation (diff/interp/min/max over 1-3 axes with all valid shifts, cumsum, derivative, integrate, "
-    "average, cumint, metric_weighted, user grid ufuncs with 1-2 inputs, 1-2 axes and generated integer stencils via "
+    "average, cumint, interp_like, metric_weighted, user grid ufuncs with 1-2 inputs, 1-2 axes and generated integer stencils via "
     "apply_as_grid_ufunc or as_grid_ufunc with and without map_overlap and with boundary_width listed in any order, "
     "two-axis user ufuncs on face-connected grids, vector components with other_component, diff_2d_vector/"
     "interp_2d_vector), and an independent random composition of every dimension length into chunks (face grids: face "
